@@ -54,6 +54,8 @@ type wMsgHead struct {
 	Oneofs   []string `json:"oneofs"`
 	Exts     []wField `json:"exts"`
 	ExtRange bool     `json:"extRange"` // has an extension range [1000, 536870912) (not read by the model)
+	// MEExplicit: the options spell `map_entry: false` out (valid; same meaning as absent). Harness-only.
+	MEExplicit bool `json:"meExplicit,omitempty"`
 }
 type wMsg struct {
 	Head   wMsgHead `json:"head"`
@@ -75,6 +77,8 @@ type wFile struct {
 	Exts       []wField   `json:"exts"`
 	Locs       []wLoc     `json:"locs"`
 	GoPackage  string     `json:"goPackage"`
+	// WeakDeps: indices into Deps also listed as weak_dependency (valid; pgs does not read it). Harness-only.
+	WeakDeps []int `json:"weakDeps,omitempty"`
 }
 type wWorld struct {
 	Files   []wFile  `json:"files"`
@@ -158,6 +162,8 @@ func (b *built) msg(m wMsg, r ref) *descriptor.DescriptorProto {
 	md := &descriptor.DescriptorProto{Name: proto.String(m.Head.Name)}
 	if m.Head.MapEntry {
 		md.Options = &descriptor.MessageOptions{MapEntry: proto.Bool(true)}
+	} else if m.Head.MEExplicit {
+		md.Options = &descriptor.MessageOptions{MapEntry: proto.Bool(false)}
 	}
 	if m.Head.ExtRange {
 		md.ExtensionRange = []*descriptor.DescriptorProto_ExtensionRange{{Start: proto.Int32(1000), End: proto.Int32(536870912)}}
@@ -196,6 +202,9 @@ func buildWorld(w wWorld) *built {
 		fd.Dependency = append(fd.Dependency, f.Deps...)
 		for _, p := range f.PublicDeps {
 			fd.PublicDependency = append(fd.PublicDependency, int32(p))
+		}
+		for _, p := range f.WeakDeps {
+			fd.WeakDependency = append(fd.WeakDependency, int32(p))
 		}
 		if f.GoPackage != "" {
 			fd.Options = &descriptor.FileOptions{GoPackage: proto.String(f.GoPackage)}
@@ -300,7 +309,7 @@ var goNamePools = map[string][]string{
 	"of": {"foo", "bar", "item", "kind", "reset", "get_foo", "foo_", "Foo", "baz", "string", "get_bar", "Item", "Kind", "textBlock", "TextBlock", "fooBar", "FooBar", "md5hash", "I", "x9z", "a0_z"},
 	"o":  {"choice", "reset", "string", "which_one", "Choice", "_c", "c_", "get_foo", "descriptor", "z9a", "a_0z"},
 	"mp": {"labels", "index", "foo_map", "Attrs", "reset"}, "x": {"tag", "ext_1", "_note"},
-	"S": {"Api", "admin_svc", "_Svc", "svc2", "s3api", "z9a_svc"}, "Rpc": {"Get", "put_it", "_list", "List2", "get2nd", "a0z", "z_9a"},
+	"S": {"Api", "admin_svc", "_Svc", "svc2", "s3api", "z9a_svc", "ServerInfo", "GameServerAdmin", "server_status", "ClientHub", "my_client_api"}, "Rpc": {"Get", "put_it", "_list", "List2", "get2nd", "a0z", "z_9a"},
 }
 
 var namePools = map[string][]string{
@@ -386,8 +395,13 @@ func genWorld(r *rand.Rand, o genOpts) wWorld {
 	for fi := 0; fi < nf; fi++ {
 		f := wFile{Name: fmt.Sprintf("f%d.proto", fi), Pkg: pkgs[r.Intn(len(pkgs))], Deps: []string{}, PublicDeps: []int{}, Enums: []wEnum{}, Msgs: []wMsg{},
 			Services: []wService{}, Exts: []wField{}, Locs: []wLoc{}}
-		if r.Intn(3) == 0 {
+		switch r.Intn(9) {
+		case 0, 1, 2:
 			f.Name = fmt.Sprintf("dir%d/f%d.proto", r.Intn(2), fi)
+		case 3: // dot-directories and dot-files are ordinary paths
+			f.Name = fmt.Sprintf(".hidden/f%d.proto", fi)
+		case 4:
+			f.Name = fmt.Sprintf(".f%d.proto", fi)
 		}
 		proto3 := r.Intn(2) == 0
 		switch {
@@ -419,7 +433,9 @@ func genWorld(r *rand.Rand, o genOpts) wWorld {
 			for x := range reexports[d] {
 				visible[fi][x] = true
 			}
-			if r.Intn(3) == 0 {
+			if r.Intn(8) == 0 && !o.goPkg {
+				f.WeakDeps = append(f.WeakDeps, len(f.Deps)-1)
+			} else if r.Intn(3) == 0 {
 				f.PublicDeps = append(f.PublicDeps, len(f.Deps)-1)
 				reexports[fi][d] = true
 				for x := range reexports[d] {
@@ -476,7 +492,8 @@ func genWorld(r *rand.Rand, o genOpts) wWorld {
 			}
 			pool := []string{"example.com/gen/alpha", "example.com/gen/beta;betapkg", "example.com/x/go-pkg", "example.com/x/v1.2", "example.com/x/type",
 				"example.com/x/9lives", "bare" + strings.ReplaceAll(dir, ".", "root"), "example.com/gen/alpha", "example.com/y/func;select", "example.com/y/Mixed_Case",
-				"example.com/z/a.b-c;d-e.f", "only/one", "example.com/q/my--pkg", "example.com/q/v1.-beta;snake__case", "example.com/q/a.-_b", "example.com/a/types", "example.com/b/types", "example.com/a/types", "example.com/b/types"}
+				"example.com/z/a.b-c;d-e.f", "only/one", "example.com/q/my--pkg", "example.com/q/v1.-beta;snake__case", "example.com/q/a.-_b", "example.com/a/types", "example.com/b/types", "example.com/a/types", "example.com/b/types",
+				"example.com/x/mapping", "example.com/m/maps", "example.com/m/v2;mapper", "example.com/q/foo\u2013bar", "example.com/q/a\u00b7b;c\U0001F642d", "dash\u2014" + strings.ReplaceAll(dir, ".", "root")}
 			fp.GoPackage = pool[r.Intn(len(pool))]
 		}
 		if o.locs {
@@ -509,10 +526,19 @@ func (wg *worldGen) genEnum(scope string, fi int, proto3 bool) wEnum {
 	e := wEnum{Name: wg.fresh("E", scope)}
 	nv := 1 + wg.r.Intn(3)
 	sparse := !proto3 && wg.r.Intn(3) == 0
+	// numbers in no particular order (declaration order is what counts), negatives included
+	unordered := !sparse && wg.r.Intn(3) == 0
+	perm := wg.r.Perm(9)
 	for i := 0; i < nv; i++ {
 		num := int32(i)
 		if sparse {
 			num = int32(i*7 + 1)
+		}
+		if unordered && i > 0 {
+			num = int32(perm[i]*3 - 7)
+			if num == 0 {
+				num = 100
+			}
 		}
 		e.Values = append(e.Values, wEnumVal{wg.fresh("V", scope), num})
 	}
@@ -525,6 +551,7 @@ func (wg *worldGen) declMsgTree(scope string, fi int, proto3 bool, depth int) wM
 	m := wMsg{Head: wMsgHead{Name: wg.fresh("M", scope), Fields: []wField{}, Enums: []wEnum{}, Oneofs: []string{}, Exts: []wField{}}, Nested: []wMsg{}}
 	fqn := fqnJoin(scope, m.Head.Name)
 	m.Head.ExtRange = !proto3 && wg.r.Intn(3) == 0
+	m.Head.MEExplicit = wg.r.Intn(5) == 0
 	wg.msgs = append(wg.msgs, declMsg{fqn, fi, false, m.Head.ExtRange, proto3})
 	for k := wg.r.Intn(2); k > 0; k-- {
 		m.Head.Enums = append(m.Head.Enums, wg.genEnum(fqn, fi, proto3))
@@ -676,7 +703,7 @@ func (wg *worldGen) fillMsg(m *wMsg, scope string, fi int, proto3 bool, vis map[
 		m.Head.Fields[idx].OneofIndex = &oi
 	}
 	if !proto3 {
-		for k := wg.r.Intn(4); k > 2; k-- {
+		for k := []int{0, 0, 0, 1, 2, 3}[wg.r.Intn(6)]; k > 0; k-- {
 			if x, ok := wg.genExt(fqn, fi, proto3, vis); ok {
 				m.Head.Exts = append(m.Head.Exts, x)
 			}
@@ -751,6 +778,9 @@ func genLocs(r *rand.Rand, f *wFile) {
 		for i := range m.Head.Enums {
 			enum(append(append([]int{}, path...), 4, i), &m.Head.Enums[i])
 		}
+		if len(m.Head.Exts) > 0 && r.Intn(2) == 0 {
+			add(append(append([]int{}, path...), 6)...) // the `extend` block itself, before its members
+		}
 		for i := range m.Head.Exts {
 			add(append(append([]int{}, path...), 6, i)...)
 		}
@@ -776,6 +806,9 @@ func genLocs(r *rand.Rand, f *wFile) {
 				add(6, i, 2, j, 4, 1) // method option
 			}
 		}
+	}
+	if len(f.Exts) > 0 && r.Intn(2) == 0 {
+		add(7)
 	}
 	for i := range f.Exts {
 		add(7, i)
